@@ -6,6 +6,7 @@ use risinglight::storage::verif_hooks as h;
 use serde_json::{Value, json};
 mod sql;
 mod col;
+mod compact;
 
 fn le_u32(b: &[u8]) -> u32 { let mut a = [0u8; 4]; a[..b.len().min(4)].copy_from_slice(&b[..b.len().min(4)]); u32::from_le_bytes(a) }
 fn le_i32(b: &[u8]) -> i32 { le_u32(b) as i32 }
@@ -241,6 +242,7 @@ fn search(unit: &str, depth: usize) -> Value {
             }
         }
         "column" => return col::column(depth),
+        "sqlcompact" => return compact::compact(depth),
         "sqlddl" => return sql::ddl(depth),
         "sqlexpr" => return sql::expr(depth),
         "sqlorder" => return sql::order(depth),
